@@ -14,6 +14,11 @@ Driver for the enum area: decodes one case, prints the region and the model / sp
   B = (b S…)   S = (s (n "A" "B"…) (t "T" [q])|(c)|(e -|"T") (v 1 2…))     q: the type is not a plain identifier
   every enum case may carry (locals B…): the const declarations inside function bodies, and
   (generated B…): the const declarations of generated files already in the package (a re-run)
+  c04 / c12 / c14 may carry (hist C…): a history of calls made between the first observations and the re-observation of
+  every method (keys h<j>);  C = (str x) (valid x) (values) (strings) (vmap) (smap) (parse "s") (try "s" t) (isenum <TV kind> v)
+  (ujson J t) (utext "s" t) (scan Q t) (enc x) (has x f) (add x f) (rem x f)
+  (case <id> c04a (type …) (blocks B…) (win v…) (scribble (setv j v)|(sets j "s")|(putvm "s" v)|(delvm "s")|(putsm v "s")|(delsm v) …)):
+  a CALLER writes through what the getters returned, then every method is observed (region Out: advisory)
 -/
 namespace ShootVerif.Drive
 open ShootVerif.Enum
@@ -96,47 +101,25 @@ def staleVariants (p : Sexp) : List (String × (Name → Option Int)) :=
       | _ => none)
   | none => []
 
-/-! ### C04 -/
 
-def c04Model (i : Input) (win : List Int) (stale : List (String × (Name → Option Int))) : List (String × String) :=
-  match gen i.kind i.T i.scanned with
-  | .skipped => [("exit", "0"), ("file", "none")]
-  | .file cs =>
-    if !compiles false i.T i.decl cs then [("exit", "0"), ("compile", "error")]
-    else
-      [("exit", "0"), ("compile", "ok"),
-       ("values", commaInts (valuesT cs)), ("strings", commaNames (stringsT i.T cs)),
-       ("vmap", showVMap (valueMap i.T cs)), ("smap", showSMap (stringMap i.T cs))]
-      ++ win.flatMap (fun x => [(s!"str:{x}", showStr (stringOf i.kind i.T cs x)), (s!"valid:{x}", toString (isValid i.T cs x))])
-      -- the same observations after a history of decoder calls: the tables are immutable in the model
-      ++ [("values2", commaInts (valuesT cs)), ("strings2", commaNames (stringsT i.T cs)),
-          ("vmap2", showVMap (valueMap i.T cs)), ("smap2", showSMap (stringMap i.T cs))]
-      ++ win.map (fun x => (s!"valid2:{x}", toString (isValid i.T cs x)))
-      ++ stale.map (fun (l, cur) => (s!"stale:{l}", if guardOK i.kind cs cur then "accepted" else "rejected"))
+/-! ### histories of calls against the running program (Model/Enum.lean: Tables, step, run) -/
 
-def c04Spec (i : Input) (win : List Int) (stale : List (String × (Name → Option Int))) : List (String × String) :=
-  let d := i.decl
-  [("exit", "0"), ("compile", "ok"),
-   ("values", commaInts (specValues d)), ("strings", commaNames (specStrings i.T d)),
-   ("vmap", showVMap (d.map (fun c => (trim i.T c.name, (specValueOf i.T d (trim i.T c.name)).getD 0)))),
-   ("smap", showSMap (d.map (fun c => (c.val, (specNameOf i.T d c.val).getD []))))]
-  ++ win.flatMap (fun x => [(s!"str:{x}", showStr (specString i.T d x)), (s!"valid:{x}", toString (specValid d x))])
-  ++ [("values2", commaInts (specValues d)), ("strings2", commaNames (specStrings i.T d)),
-      ("vmap2", showVMap (d.map (fun c => (trim i.T c.name, (specValueOf i.T d (trim i.T c.name)).getD 0)))),
-      ("smap2", showSMap (d.map (fun c => (c.val, (specNameOf i.T d c.val).getD []))))]
-  ++ win.map (fun x => (s!"valid2:{x}", toString (specValid d x)))
-  ++ stale.map (fun (l, cur) => (s!"stale:{l}", if specGuard d cur then "accepted" else "rejected"))
+def showDec (d : Bool × Int) : String := (if d.1 then "ok " else "err ") ++ toString d.2
 
-def c04Case (id : String) (payload : List Sexp) : List String :=
-  let p := Sexp.list (.atom "p" :: payload)
-  match parseInput p with
-  | none => err id "bad-enum-case"
-  | some i =>
-    let win := intsOf p "win"
-    let st := staleVariants p
-    both id (c04Model i win st) (c04Spec i win st) (region i)
+def enumerate {α} (l : List α) : List (Nat × α) := (List.range l.length).zip l
 
-/-! ### C12 -/
+def showRes : Res → String
+  | .str s => showStr s
+  | .bool b => toString b
+  | .ints l => commaInts l
+  | .names l => commaNames l
+  | .vmap m => showVMap m
+  | .smap m => showSMap m
+  | .parsed (some v) => s!"ok {v}"
+  | .parsed none => "err"
+  | .tried r => s!"{r.1} {r.2}"
+  | .decoded r => showDec r
+  | .int v => toString v
 
 def parseJsonIn : Sexp → Option JsonIn
   | .atom "null" => some .null
@@ -150,14 +133,146 @@ def parseSqlIn : Sexp → Option SqlIn
   | .list [.atom "str", .atom s] => some (.str (nm s))
   | _ => none
 
-def showDec (d : Bool × Int) : String := (if d.1 then "ok " else "err ") ++ toString d.2
+def parseCall : Sexp → Option Call
+  | .list [.atom "str", x] => x.asInt?.map .string
+  | .list [.atom "valid", x] => x.asInt?.map .isValid
+  | .list [.atom "values"] => some .values
+  | .list [.atom "strings"] => some .strings
+  | .list [.atom "vmap"] => some .valueMap
+  | .list [.atom "smap"] => some .stringMap
+  | .list [.atom "parse", .atom s] => some (.parseEnum (nm s))
+  | .list [.atom "try", .atom s, t] => t.asInt?.map (.tryParse (nm s))
+  | .list [.atom "isenum", .atom k, v] => do
+      let kk ← kindOfName k
+      let v ← v.asInt?
+      some (.isEnum kk.1 v)
+  | .list [.atom "ujson", d, t] => do
+      let d ← parseJsonIn d
+      let t ← t.asInt?
+      some (.unmarshalJSON d t)
+  | .list [.atom "utext", .atom s, t] => t.asInt?.map (.unmarshalText (nm s))
+  | .list [.atom "scan", d, t] => do
+      let d ← parseSqlIn d
+      let t ← t.asInt?
+      some (.scan d t)
+  | .list [.atom "enc", x] => x.asInt?.map .encode
+  | .list [.atom "has", x, f] => do
+      let x ← x.asInt?
+      let f ← f.asInt?
+      some (.has x f)
+  | .list [.atom "add", x, f] => do
+      let x ← x.asInt?
+      let f ← f.asInt?
+      some (.add x f)
+  | .list [.atom "rem", x, f] => do
+      let x ← x.asInt?
+      let f ← f.asInt?
+      some (.remove x f)
+  | _ => none
+
+/-- `(hist C…)`; `none` when a call does not parse -/
+def histOf (p : Sexp) : Option (List Call) :=
+  match p.field? "hist" with
+  | some f => f.args.mapM parseCall
+  | none => some []
+
+/-- the history run against the tables: (tables afterwards, `h<j>` lines) -/
+def histModel (p : Prog) (st : Tables) (calls : List Call) : Tables × List (String × String) :=
+  let r := run p st calls
+  (r.1, (enumerate r.2).map (fun (j, x) => (s!"h{j}", showRes x)))
+
+def histSpec (T : Name) (k : Kind) (bit : Bool) (decl : List Const) (calls : List Call) : List (String × String) :=
+  (enumerate calls).map (fun (j, c) => (s!"h{j}", showRes (specCall T k bit decl c)))
+
+/-- every getter and, over the window, String / IsValid once more — against the tables as they are NOW -/
+def againModel (p : Prog) (st : Tables) (win : List Int) (sfx : String := "2") : List (String × String) :=
+  [(s!"values{sfx}", showRes (step p st .values).2), (s!"strings{sfx}", showRes (step p st .strings).2),
+   (s!"vmap{sfx}", showRes (step p st .valueMap).2), (s!"smap{sfx}", showRes (step p st .stringMap).2)]
+  ++ win.flatMap (fun x => [(s!"str{sfx}:{x}", showRes (step p st (.string x)).2), (s!"valid{sfx}:{x}", showRes (step p st (.isValid x)).2)])
+
+def againSpec (T : Name) (k : Kind) (bit : Bool) (decl : List Const) (win : List Int) (sfx : String := "2") : List (String × String) :=
+  [(s!"values{sfx}", showRes (specCall T k bit decl .values)), (s!"strings{sfx}", showRes (specCall T k bit decl .strings)),
+   (s!"vmap{sfx}", showRes (specCall T k bit decl .valueMap)), (s!"smap{sfx}", showRes (specCall T k bit decl .stringMap))]
+  ++ win.flatMap (fun x => [(s!"str{sfx}:{x}", showRes (specCall T k bit decl (.string x))), (s!"valid{sfx}:{x}", showRes (specCall T k bit decl (.isValid x)))])
+
+def parseScribble : Sexp → Option Scribble
+  | .list [.atom "setv", j, v] => do
+      let j ← j.asNat?
+      let v ← v.asInt?
+      some (.setValue j v)
+  | .list [.atom "sets", j, .atom s] => j.asNat?.map (fun j => .setString j (nm s))
+  | .list [.atom "putvm", .atom s, v] => v.asInt?.map (.putValueMap (nm s))
+  | .list [.atom "delvm", .atom s] => some (.delValueMap (nm s))
+  | .list [.atom "putsm", v, .atom s] => v.asInt?.map (fun v => .putStringMap v (nm s))
+  | .list [.atom "delsm", v] => v.asInt?.map .delStringMap
+  | _ => none
+
+/-! ### C04 -/
+
+def c04Model (i : Input) (win : List Int) (stale : List (String × (Name → Option Int))) (calls : List Call) : List (String × String) :=
+  match gen i.kind i.T i.scanned with
+  | .skipped => [("exit", "0"), ("file", "none")]
+  | .file cs =>
+    if !compiles false i.T i.decl cs then [("exit", "0"), ("compile", "error")]
+    else
+      [("exit", "0"), ("compile", "ok"),
+       ("values", commaInts (valuesT cs)), ("strings", commaNames (stringsT i.T cs)),
+       ("vmap", showVMap (valueMap i.T cs)), ("smap", showSMap (stringMap i.T cs))]
+      ++ win.flatMap (fun x => [(s!"str:{x}", showStr (stringOf i.kind i.T cs x)), (s!"valid:{x}", toString (isValid i.T cs x))])
+      -- the history of calls against the running program, then every method once more against the tables as they are THEN
+      ++ (let p := progOf i.kind false cs
+          let r := histModel p (tablesOf i.T cs) calls
+          r.2 ++ againModel p r.1 win)
+      ++ stale.map (fun (l, cur) => (s!"stale:{l}", if guardOK i.kind cs cur then "accepted" else "rejected"))
+
+def c04Spec (i : Input) (win : List Int) (stale : List (String × (Name → Option Int))) (calls : List Call) : List (String × String) :=
+  let d := i.decl
+  [("exit", "0"), ("compile", "ok"),
+   ("values", commaInts (specValues d)), ("strings", commaNames (specStrings i.T d)),
+   ("vmap", showVMap (d.map (fun c => (trim i.T c.name, (specValueOf i.T d (trim i.T c.name)).getD 0)))),
+   ("smap", showSMap (d.map (fun c => (c.val, (specNameOf i.T d c.val).getD []))))]
+  ++ win.flatMap (fun x => [(s!"str:{x}", showStr (specString i.T d x)), (s!"valid:{x}", toString (specValid d x))])
+  ++ histSpec i.T i.kind false d calls ++ againSpec i.T i.kind false d win
+  ++ stale.map (fun (l, cur) => (s!"stale:{l}", if specGuard d cur then "accepted" else "rejected"))
+
+def c04Case (id : String) (payload : List Sexp) : List String :=
+  let p := Sexp.list (.atom "p" :: payload)
+  match parseInput p with
+  | none => err id "bad-enum-case"
+  | some i =>
+    let win := intsOf p "win"
+    let st := staleVariants p
+    match histOf p with
+    | none => err id "bad-history"
+    | some calls =>
+      both id (c04Model i win st calls) (c04Spec i win st calls) (if calls.all Call.ok then region i else "Out")
+
+/-- a caller writes through the slices / maps the getters handed out, then every method is observed: the
+    model applies the writes to the tables (the getters return the tables themselves); outside the property -/
+def c04aCase (id : String) (payload : List Sexp) : List String :=
+  let p := Sexp.list (.atom "p" :: payload)
+  match parseInput p with
+  | none => err id "bad-enum-case"
+  | some i =>
+    let win := intsOf p "win"
+    match ((p.field? "scribble").map (·.args)).getD [] |>.mapM parseScribble with
+    | none => err id "bad-scribble"
+    | some ws =>
+      match gen i.kind i.T i.scanned with
+      | .file cs =>
+        let pr := progOf i.kind false cs
+        let st := ws.foldl scribble (tablesOf i.T cs)
+        both id (againModel pr st win "A") (againSpec i.T i.kind false i.decl win "A") "Out"
+      | _ => both id [] [] "Out"
+
+/-! ### C12 -/
+
 def showCls : Option DecErr → String
   | none => "nil"
   | some .notString => "notstring"
   | some .notFound => "notfound"
   | some .badType => "badtype"
 
-def enumerate {α} (l : List α) : List (Nat × α) := (List.range l.length).zip l
 
 /-- `(ints (int64 1 2 …) (uint8 255 …) …)`: IsEnum probes by the kind of TV -/
 def probesOf (p : Sexp) : List (String × Kind × Int) :=
@@ -180,6 +295,7 @@ structure C12Probes where
   sqls : List SqlIn
   ints : List (String × Kind × Int)
   encs : List Int
+  calls : List Call := []
 
 def c12Model (i : Input) (q : C12Probes) : List (String × String) :=
   match gen i.kind i.T i.scanned with
@@ -216,8 +332,10 @@ def c12Model (i : Input) (q : C12Probes) : List (String × String) :=
             [(s!"parse:{j}", match parseEnum vm s with | some v => s!"ok {v}" | none => "err"),
              (s!"try:{j}", let r := tryParseEnum vm s q.target; s!"{r.1} {r.2}")])
       ++ q.ints.map (fun (n, kV, v) => (s!"isenum:{n}:{v}", toString (isEnum i.kind kV (valuesT cs) v)))
-      ++ [("values2", commaInts (valuesT cs)), ("strings2", commaNames (stringsT i.T cs)),
-          ("vmap2", showVMap (valueMap i.T cs)), ("smap2", showSMap (stringMap i.T cs))]
+      -- the history of calls against the running program, then every getter against the tables as they are THEN
+      ++ (let p := progOf i.kind false cs
+          let r := histModel p (tablesOf i.T cs) q.calls
+          r.2 ++ againModel p r.1 q.encs)
 
 def c12Spec (i : Input) (q : C12Probes) : List (String × String) :=
   let d := i.decl
@@ -238,9 +356,7 @@ def c12Spec (i : Input) (q : C12Probes) : List (String × String) :=
         [(s!"parse:{j}", match specParse T d s with | some v => s!"ok {v}" | none => "err"),
          (s!"try:{j}", let r := specDecode T d (some s) q.target; s!"{r.1} {r.2}")])
   ++ q.ints.map (fun (n, _, v) => (s!"isenum:{n}:{v}", toString (specIsEnum d v)))
-  ++ [("values2", commaInts (specValues d)), ("strings2", commaNames (specStrings T d)),
-      ("vmap2", showVMap (d.map (fun c => (trim T c.name, (specValueOf T d (trim T c.name)).getD 0)))),
-      ("smap2", showSMap (d.map (fun c => (c.val, (specNameOf T d c.val).getD []))))]
+  ++ histSpec T i.kind false d q.calls ++ againSpec T i.kind false d q.encs
 
 def c12Case (id : String) (payload : List Sexp) : List String :=
   let p := Sexp.list (.atom "p" :: payload)
@@ -248,7 +364,11 @@ def c12Case (id : String) (payload : List Sexp) : List String :=
   | none => err id "bad-enum-case"
   | some i =>
     let fl := (p.field? "flags").getD (.list [])
+    match histOf p with
+    | none => err id "bad-history"
+    | some calls =>
     let q : C12Probes := {
+      calls := calls,
       json := fl.hasFlag "json", text := fl.hasFlag "text", sql := fl.hasFlag "sql", gorm := fl.hasFlag "gorm",
       target := (intsOf p "target").headD 0,
       strs := ((p.field? "strs").map (·.args)).getD [] |>.filterMap (fun a => a.asAtom?.map nm),
@@ -256,7 +376,7 @@ def c12Case (id : String) (payload : List Sexp) : List String :=
       sqls := ((p.field? "sqls").map (·.args)).getD [] |>.filterMap parseSqlIn,
       ints := probesOf p, encs := intsOf p "encs" }
     let pr := q.ints.map (fun (_, kV, v) => (kV, v))
-    let reg := if WF i && !probesOK pr then "Out" else region i
+    let reg := if WF i && !(probesOK pr && calls.all Call.ok) then "Out" else region i
     both id (c12Model i q) (c12Spec i q) reg
 
 /-- the IsEnum probe matrix of one enum over every integer type TV (separate case so that a finding
@@ -319,29 +439,38 @@ def showBV {w} (signed : Bool) (x : BitVec w) : String := toString (Bit.decOf si
 
 def c14Lines {w : Nat} (signed : Bool) (t : Bit.Table w) (strf : BitVec w → Str)
     (has : BitVec w → BitVec w → Bool) (add rem : BitVec w → BitVec w → BitVec w) (hi : Nat) (negs : List Int)
-    (hist : List String) : List (String × String) :=
+    (hist : List String) (t2 : Bit.Table w) (strf2 : BitVec w → Str) (mid : List (String × String)) : List (String × String) :=
   let xs := (List.range hi).map (fun n => BitVec.ofNat w n)
   let sweep := "|".intercalate (xs.map (fun x => showStr (strf x)))
+  let sweep2 := "|".intercalate (xs.map (fun x => showStr (strf2 x)))
   [("strs", sweep)]
-  -- Values() observed again after the runtime helpers were called on every value: the table is immutable
-  ++ [("vals2", ",".intercalate (t.map (fun e => showBV signed e.1)))]
-  -- call histories (descending sweep, through each encoder, ascending again): String() is a function of the value
-  ++ hist.map (fun k => (k, sweep))
   ++ (if negs.isEmpty then [] else [("nstrs", "|".intercalate (negs.map (fun v => showStr (strf (BitVec.ofInt w v)))))])
+  -- the history of calls (h<j>) and every getter again
+  ++ mid
+  -- Values() observed again after the runtime helpers were called on every value: `t2` is the table as it is THEN
+  ++ [("vals2", ",".intercalate (t2.map (fun e => showBV signed e.1)))]
+  -- call histories (descending sweep, through each encoder, ascending again): String() is a function of the value
+  ++ hist.map (fun k => (k, sweep2))
   ++ t.flatMap (fun e =>
       let f := e.1
       [(s!"has:{showBV signed f}", String.ofList (xs.map (fun x => if has x f then '1' else '0'))),
        (s!"add:{showBV signed f}", ",".intercalate (xs.map (fun x => showBV signed (add x f)))),
        (s!"rem:{showBV signed f}", ",".intercalate (xs.map (fun x => showBV signed (rem x f))))])
 
-def c14At (w : Nat) (i : Input) (cs : List Const) (hi : Nat) (negs : List Int) (hist : List String) :
+def c14At (w : Nat) (i : Input) (cs : List Const) (hi : Nat) (negs : List Int) (hist : List String) (calls : List Call) :
     List (String × String) × List (String × String) :=
   let sg := i.kind.signed
   let tm : Bit.Table w := Bit.table i.T cs
   let ts : Bit.Table w := Bit.table i.T (specSorted i.decl)
-  (c14Lines sg tm (Bit.string sg tm) Bit.has Bit.add Bit.remove hi negs hist,
-   c14Lines sg ts (if Bit.WFt sg ts then Bit.specString sg ts else Bit.specGeneral sg ts)
-     Bit.specHas Bit.specAdd Bit.specRemove hi negs hist)
+  -- the running program: the history, then the tables as they are afterwards (`_t_values` zipped with `_t_string_map`)
+  let p := progOf i.kind true cs
+  let r := histModel p (tablesOf i.T cs) calls
+  let tm2 : Bit.Table w := r.1.values.map (fun v => (BitVec.ofInt w v, ((r.1.smap.lookup v).getD [])))
+  let specf := if Bit.WFt sg ts then Bit.specString sg ts else Bit.specGeneral sg ts
+  (c14Lines sg tm (Bit.string sg tm) Bit.has Bit.add Bit.remove hi negs hist tm2 (Bit.string sg tm2)
+     (r.2 ++ againModel p r.1 []),
+   c14Lines sg ts specf Bit.specHas Bit.specAdd Bit.specRemove hi negs hist ts specf
+     (histSpec i.T i.kind true i.decl calls ++ againSpec i.T i.kind true i.decl []))
 
 def c14Case (id : String) (payload : List Sexp) : List String :=
   let p := Sexp.list (.atom "p" :: payload)
@@ -354,18 +483,22 @@ def c14Case (id : String) (payload : List Sexp) : List String :=
     let hist := ["strs2"] ++ (if fl.hasFlag "text" then ["tstrs"] else []) ++ (if fl.hasFlag "json" then ["jstrs"] else [])
       ++ (if fl.hasFlag "sql" then ["vstrs"] else []) ++ ["strs3"]
     let hd := [("exit", "0"), ("compile", "ok")]
+    match histOf p with
+    | none => err id "bad-history"
+    | some calls =>
+    let reg := if calls.all Call.ok then regionBit i else "Out"
     match gen i.kind i.T i.scanned with
-    | .skipped => both id [("exit", "0"), ("file", "none")] hd (regionBit i)
+    | .skipped => both id [("exit", "0"), ("file", "none")] hd reg
     | .file cs =>
       -- the copy under observation has the defined table substituted, so it compiles like a plain enum
-      if !compiles false i.T i.decl cs then both id [("exit", "0"), ("compile", "error")] hd (regionBit i)
+      if !compiles false i.T i.decl cs then both id [("exit", "0"), ("compile", "error")] hd reg
       else
         let (m, s) := match i.kind.bits with
-          | 8 => c14At 8 i cs hi negs hist
-          | 16 => c14At 16 i cs hi negs hist
-          | 32 => c14At 32 i cs hi negs hist
-          | _ => c14At 64 i cs hi negs hist
-        both id (hd ++ m) (hd ++ s) (regionBit i)
+          | 8 => c14At 8 i cs hi negs hist calls
+          | 16 => c14At 16 i cs hi negs hist calls
+          | 32 => c14At 32 i cs hi negs hist calls
+          | _ => c14At 64 i cs hi negs hist calls
+        both id (hd ++ m) (hd ++ s) reg
 
 /-- the emitted -bit file as it is: does it compile? -/
 def c14rawCase (id : String) (payload : List Sexp) : List String :=
